@@ -7,7 +7,7 @@ import math
 from fractions import Fraction
 from .common import pyval
 
-GEN_FUNCTIONS = ['distance', 'dotProductXY', 'position_scale', 'points_near', 'square_dist', 'vInitial_VF_A_Dx', 'vFinal_Vi_A_Dx']
+GEN_FUNCTIONS = ['distance', 'dotProductXY', 'position_scale', 'points_near', 'points_equal', 'square_dist', 'vInitial_VF_A_Dx', 'vFinal_Vi_A_Dx']
 RULE = ('int/float argument mixtures: small integers (exact Pythagorean / kinematic triples), random floats over 30 binades, '
         'values at the clamp bounds +-1 of dotProductXY and at radicand 0 of the kinematic helpers; a case is non-trivial when '
         'a branch other than the plain one is taken or rounding occurs (float arguments); distinct by (function, arguments)')
@@ -58,6 +58,14 @@ def run(ctx):
         sq = pu.square_dist(a, b)
         tol = rng.choice([sq, math.nextafter(float(sq), math.inf), math.nextafter(float(sq), -math.inf), num(rng), 0, 1])
         add('points_near', (a, b, tol), [lst(a), lst(b), pyval(tol)])
+        # points_equal: pairs at relative distance around math.isclose's default 1e-9, exact repeats, int/float mixtures
+        pa = [num(rng), num(rng)]
+        rel = rng.choice([0, 1e-9, 0.99e-9, 1.01e-9, 1.0000001e-9, 0.9999999e-9, 2e-9, 1e-12, 1e-6])
+        pb = [pa[0] * (1 + rng.choice([-1, 1]) * rel) if rng.random() < 0.8 else num(rng),
+              pa[1] * (1 + rng.choice([-1, 1]) * rng.choice([0, rel])) if rng.random() < 0.8 else num(rng)]
+        if rng.random() < 0.2:
+            pb = [math.nextafter(float(pa[0]), math.inf), pa[1]]
+        add('points_equal', (pa, pb), [lst(pa), lst(pb)])
         code = rng.choice([0, 1, 2, 3, -1, 1.0, 2.0])
         add('position_scale', (x, y, code), [pyval(x), pyval(y), pyval(code)])
         v, acc, d = num(rng), num(rng), num(rng)
@@ -83,6 +91,15 @@ def run(ctx):
         if out is not None and out != impl:
             ctx.disagree(fn, inp, impl, out)
         # statement-level oracle on exact values
+        if fn == 'points_equal':
+            (x0, y0), (x1, y1) = args
+            far = any(abs(Fraction(u) - Fraction(v)) > Fraction(1000000001, 10 ** 18) * max(abs(Fraction(u)), abs(Fraction(v)))
+                      for u, v in ((x0, x1), (y0, y1)))
+            near = all(abs(Fraction(u) - Fraction(v)) <= Fraction(999999999, 10 ** 18) * max(abs(Fraction(u)), abs(Fraction(v)))
+                       for u, v in ((x0, x1), (y0, y1)))
+            if (far and r) or (near and not r):
+                ctx.violate('points_equal: not "relative difference <= 1e-9 on both coordinates" (margin 1e-9 relative)', inp, impl,
+                            str(not r))
         if fn == 'dotProductXY' and not (-1 <= r <= 1):
             ctx.violate('dotProductXY outside [-1, 1]', inp, impl, 'a value in [-1, 1]')
         if fn == 'distance':
